@@ -2,3 +2,4 @@ import Audit.C11
 import Audit.C10
 import Audit.C09
 import Audit.C19
+import Audit.C01
